@@ -1100,7 +1100,7 @@ class Lower:
             if x is not None and self.ret_is_ref:
                 x = self.addr(x)
             d = self.dtors(ind, len(self.scopes))
-            reach = pad + 'VS_REACH(%s);\n' % self.reach_label('ret')
+            reach = ln + pad + 'VS_REACH(%s);\n' % self.reach_label('ret')
             eg = self.cur_spec.get('exit_ghost')
             if eg:
                 d += pad + eg + '\n'
@@ -1244,7 +1244,7 @@ class Lower:
         if self.try_stack:
             lbl, depth = self.try_stack[-1]
             return s + self.dtors(ind, len(self.scopes) - depth) + pad + 'goto %s; }\n' % lbl
-        return s + self.dtors(ind, len(self.scopes)) + pad + 'VS_REACH(%s);\n' % self.reach_label('throw') + pad + 'return %s; }\n' % self.zero()
+        return s + self.dtors(ind, len(self.scopes)) + self.line(th, pad) + pad + 'VS_REACH(%s);\n' % self.reach_label('throw') + pad + 'return %s; }\n' % self.zero()
 
     def try_stmt(self, n, ind):
         pad = '    ' * ind
